@@ -125,12 +125,12 @@ pub fn gen_case(prop: &str, seed: u64) -> SdCase {
                     1 => 2,
                     _ => r.range(2, 16) as usize,
                 };
-                let start = r.range(0, 4111) as u16;
+                let start = r.range(0, 4112 - nb as u64) as u16;
                 let bits: Vec<u16> = if nb == 2 && r.chance(1, 2) {
                     vec![start, r.range(0, 4111) as u16]
                 } else {
                     // a burst: first and last bit of the burst flipped, the ones between at random
-                    (0..nb as u16).filter(|&i| i == 0 || i + 1 == nb as u16 || r.chance(1, 2)).map(|i| (start + i).min(4111)).collect()
+                    (0..nb as u16).filter(|&i| i == 0 || i + 1 == nb as u16 || r.chance(1, 2)).map(|i| start + i).collect()
                 };
                 Adversary::FlipBits { block_no: r.below(4) as u32, bits }
             }
